@@ -211,15 +211,28 @@ def C12(ck):
                "explicit profile, non-ASCII / control / quote text, negative client ids) and extension profile X2: EncodeClaimsToJSON "
                "output parsed by encoding/json into a generic tree and judged against PsaWire!JsonFormatOK (member names, base64, "
                "omission), decoded by DecodeClaimsFromJSON (dispatch judged against PsaWire!DispatchJSON), getters compared, and "
-               "CBOR -> claims -> JSON -> claims -> CBOR compared on bytes; non-trivial = every valid set")
+               "CBOR -> claims -> JSON -> claims -> CBOR compared on bytes; plus documents carrying every class of JSON value per member "
+               "(Gen_Json: right / wrong type, base64 or not, integer literals of every form) decoded and judged value for value "
+               "against PsaJson!DecodeDoc; non-trivial = every valid set / every deviating document")
     ck.assumptions = TRUST + ["encoding/json of the Go standard library as the independent JSON reader"]
     ck.add_model(vlib.mc("MC_Claims", "MC_Claims_setters.cfg"))
+    # design level: the JSON form decodes back to the same claims-set, and to the same one as the CBOR form
+    ck.add_model(vlib.mc("MC_Json", "MC_Json_small.cfg" if ck.tier == "quick" else "MC_Json.cfg", timeout=3000))
     valid = vlib.gen_export("Gen_Valid", "Gen_Valid.cfg", "valid")
     try:
         ck.run_and_judge(["wire-encode", "-seed", ck.seed, "-tier", ck.tier, "-n", _stride(ck, 3), "-reg", "X2", "-chunk", 4000,
                           "-in", valid, "-out", ck.path("we"), "json"], "Trace_Wire", par=12, xmx="3g")
     finally:
         _rm(valid)
+    # the other direction, beyond what the library itself emits: documents with every class of JSON value per member
+    # (spec/Gen_Json.tla) through both JSON decoders, judged value for value against PsaJson!DecodeDoc
+    dom = vlib.gen_export("Gen_Claims", "Gen_Claims.cfg", "domains")
+    jdom = vlib.gen_export("Gen_Json", "Gen_Json.cfg", "jsondom")
+    try:
+        ck.run_and_judge(["json-decode", "-seed", ck.seed, "-tier", ck.tier, "-reg", "X2", "-chunk", 3000, "-in", dom, "-in2", jdom,
+                          "-out", ck.path("jd")], "Trace_Wire", par=12, xmx="3g", mode="dispatch")
+    finally:
+        _rm(dom, jdom)
 
 
 def _registry_models(ck):
@@ -284,8 +297,12 @@ def C07(ck):
                           "-out", ck.path("wd")] + (["nopairs"] if ck.tier == "quick" else []), "Trace_Wire", par=12, xmx="3g", mode="dispatch")
         ck.run_and_judge(["wire-encode", "-seed", ck.seed, "-tier", ck.tier, "-n", _stride(ck, 9, 2), "-reg", "X2", "-chunk", 4000,
                           "-in", valid, "-out", ck.path("we"), "json"], "Trace_Wire", par=12, xmx="3g")
-        ck.run_and_judge(["json-decode", "-seed", ck.seed, "-reg", "X2", "-chunk", 3000, "-in", dom, "-out", ck.path("jd")], "Trace_Wire",
-                         par=12, xmx="3g", mode="dispatch")
+        jdom = vlib.gen_export("Gen_Json", "Gen_Json.cfg", "jsondom")
+        try:
+            ck.run_and_judge(["json-decode", "-seed", ck.seed, "-tier", ck.tier, "-reg", "X2", "-chunk", 3000, "-in", dom, "-in2", jdom,
+                              "-out", ck.path("jd")], "Trace_Wire", par=12, xmx="3g", mode="dispatch")
+        finally:
+            _rm(jdom)
         _reg_hist(ck, 60 if ck.tier == "quick" else 1000)
     finally:
         _rm(dom, wire, valid)
